@@ -228,13 +228,18 @@ def run(tier, seed):
         "float64 vs exact rationals: relative tolerance 1e-9",
     ]
     return rep.finish("proof", ob, trusted_base=core.TRUSTED_BASE_COMMON + [
-        "Model/CubeCounts.v is hand-written; tied to cube.py, matrix/cubemeasure.py, stripe/cubemeasure.py by "
-        "this correspondence run only (no source translator yet)",
+        "Model/CubeCounts.v is hand-written; tied to cube.py by this correspondence run only; its extractors "
+        "(counts of the nine class pairs through the factory dict, type strings, _slice_idx_expr, factory "
+        "arguments, pass-through measure classes, stripe counts + stripe factory) are ALSO tied to the text of "
+        "matrix/cubemeasure.py and stripe/cubemeasure.py by the C01_gen_* obligations (Proofs/GenAgreeCounts.v)",
+        core.TRUSTED_BASE_TRANSLATOR,
         "Spec/Survey.v tabulate is validated against harness.gen.tabulate on every third natural-order case"])
 
 
 def replay(path):
     d = json.load(open(path))
+    if d["violation"].get("kind") in core.OBLIGATION_KINDS:  # a broken obligation, no input to re-run
+        return core.replay_obligations(PID, d)
     case = d["violation"]["case"]
     cu.finish_case(case)
     io, terms = build(case, case["perm"] is None)
